@@ -2,7 +2,9 @@
 (* C03: TTX XML is a lossless representation of a font.
    "bytes": per-table compiled bytes (interned) of the original object model vs of the font
             obtained by importing its dump (options recorded) - must be equal for every dumped table;
-   "dump":  the files a dump produced and their include graph - judged by TTXDump.WellFormed;
+   "dump":  the files a dump produced and their include graph, down to the per-glyph files of a
+            splitGlyphs dump (file names as code points, glyph names found in each file) - judged by
+            TTXDump.WellFormed (every include holds exactly its table / glyph; no file named twice, ignoring case);
    "text":  a free-text string pushed through a TTX channel (text node or attribute) and read back. *)
 EXTENDS TraceIO, TTXDump
 VARIABLES tid, verdict
